@@ -405,6 +405,12 @@ func runPredecodeStream(c *Ctx, n int) {
 	csL := c.NewSet("prel", "Base Time Xml Ns Types Profile Decode Response",
 		"node", "fun root => res_val logout_response_val (other (unmarshal_logout_response root))")
 	cs.PerShard, csL.PerShard = 60, 60
+	// the same observables from the BYTES: the pre-decoder as token_view (XmlTok.v) + schema interpreter, no tree from the harness
+	csB := c.NewSet("prebytes", "Base Time Xml Ns Types Profile Decode Response XmlTok P_XmlTokC20",
+		"string", "fun raw => res_val base_response_val (other (predecode_bytes raw))")
+	csBL := c.NewSet("prebytesl", "Base Time Xml Ns Types Profile Decode Response XmlTok P_XmlTokC20",
+		"string", "fun raw => res_val logout_response_val (other (predecode_logout_bytes raw))")
+	csB.PerShard, csBL.PerShard = 6, 6
 	oversize := 0
 	for k := 0; k < n; k++ {
 		r := c.R
@@ -530,6 +536,7 @@ func runPredecodeStream(c *Ctx, n int) {
 			}
 		}
 		raw = []byte(s)
+		noteDoc("c20-predecode:"+fmt.Sprintf("shape%d", shape), raw)
 		wire := raw
 		if r.Intn(3) == 0 && shape != 13 {
 			wire = deflateBytes(raw, -1)
@@ -618,6 +625,14 @@ func runPredecodeStream(c *Ctx, n int) {
 				c.Violate("spec", key, fmt.Sprintf("pre-decode (ID=%q InResponseTo=%q Destination=%q Version=%q Issuer=%q) vs validated (ID=%q InResponseTo=%q Destination=%q Version=%q Issuer=%q)",
 					preID, preIRT, preDest, preVer, preIss, vID, vIRT, vDest, vVer, vIss), replay)
 			}
+		}
+		if shape != 13 && k%6 == 0 && len(raw) < 24<<10 {
+			if isLogout {
+				csBL.Add(S(string(raw)), obs, "from bytes: "+strings.Join(labels, ","))
+			} else {
+				csB.Add(S(string(raw)), obs, "from bytes: "+strings.Join(labels, ","))
+			}
+			c.Count("pre:model-from-bytes")
 		}
 		// model: the pre-decoder is xml.Unmarshal on the raw bytes = the schema interpreter on the RAW token view
 		// (duplicate attributes preserved)
